@@ -277,6 +277,14 @@ def run_recognition(notes):
         again = SC.determine(list(reversed(notes)) + [notes[0]])
         if not isinstance(again, list) or set(again) != gs:
             S.problem("scales.determine(reversed %r + repeated first)" % (notes,), sorted(gs), again)
+    # the caller owns the answer: after it has edited the lists it was given, the same question gets the same answer
+    got.append("Z bogus")
+    del got[:max(0, len(got) - 1)]
+    S.trans(1)
+    third = SC.determine(list(notes))
+    if not isinstance(third, list) or set(third) != want:
+        S.problem("scales.determine(%r) asked again after the caller edited the list returned before" % (notes,), sorted(want),
+                  sorted(third) if isinstance(third, list) else third)
 
 
 def gen_recognition_subsets(shard):
